@@ -161,6 +161,9 @@ func requestForms(thorough bool) []named {
 		{"registry.example.com@digest", "registry.example.com/" + pkgRepo + "@" + digest},
 		{"registry-less:v2", pkgRepo + ":v2"},
 		{"registry.example.com:v2", "registry.example.com/" + pkgRepo + ":v2"},
+		// a registry host with a port: the port's colon is not a tag separator
+		{"registry.local:5000@digest", "registry.local:5000/" + pkgRepo + "@" + digest},
+		{"registry.local:5000:v2", "registry.local:5000/" + pkgRepo + ":v2"},
 	}
 	if thorough {
 		f = append(f,
@@ -190,6 +193,10 @@ func installedSets(thorough bool) []installed {
 		out = append(out, installed{name: "custom-name/" + h.name, objs: []named{{"my-pkg", h.v + pkgRepo + ":v1"}}})
 	}
 	out = append(out, installed{name: "different-repository", objs: []named{{"other", "registry.example.com/acme/other:v1"}}})
+	out = append(out,
+		installed{name: "custom-name/registry.local:5000", objs: []named{{"my-pkg", "registry.local:5000/" + pkgRepo + ":v1"}}},
+		installed{name: "different-repository/registry.local:5000@digest", objs: []named{{"other", "registry.local:5000/acme/other@sha256:" + strings.Repeat("cd", 32)}}},
+	)
 	if thorough {
 		out = append(out,
 			installed{name: "custom-name/xpkg.upbound.io", objs: []named{{"my-pkg", "xpkg.upbound.io/" + pkgRepo + ":v1"}}},
